@@ -351,6 +351,7 @@ Definition clause_b (k : mkind) (h : heap) (g : graph) (h' : heap) (g' : graph) 
   | KChange => same_counts h g h' g'
   | KEdge => edge_delta h g h' g'
   | KDrop => negb (null g')
+  | KReduce => negb (null g')      (* removing a subtree is node removal too: never every node *)
   | _ => true
   end.
 
